@@ -21,6 +21,43 @@ CHECKS = {
     ),
 }
 
+CHECKS.update(
+    C01=dict(
+        category="other",
+        text="Bounded symbolic execution of the real block / kitty / iterm2 _render_image (incl. Transmission.get_chunks) with rendered width, "
+        "terminal size, cursor start, z-index, compression level, flags and payload lengths as z3 variables; rendered height, cell size, "
+        "terminal identity, method and mode enumerated. The output term is run on a terminal model with one symbolic probe cell, so "
+        "'changes only / covers the rectangle', cursor, wrap/scroll, SGR reset, complete sequences and newline count are unsat queries "
+        "covering every cell, size and position within the bounds.",
+        note="Trusted: the terminal model sx/term.py (documented in DESIGN 2.3), z3, the proxy engine (cross-checked against the unlifted "
+        "code per shape), opaque-payload stubs for zlib/base64/PIL encoders. Heights above the enumerated bound are outside the claim.",
+        design="3 C01",
+        technique=TECH_S + "; terminal-model oracle with a symbolic probe cell",
+    ),
+    C02=dict(
+        category="other",
+        text="The real BlockImage._render_image runs on fully symbolic pixel data (every channel a z3 Int, every alpha class a z3 Bool, "
+        "terminal background and kitty workaround symbolic) for enumerated small widths/heights; the half-cell colours the terminal "
+        "model shows in a symbolic probe cell must equal the two source pixels. The solver ranges over all run boundaries and alpha "
+        "transitions. The pixel pipeline _get_render_data is checked with PIL operations as uninterpreted functions.",
+        note="Trusted: terminal model, PIL's own arithmetic (convert/resize/composite), z3, engine. Image sizes beyond the enumerated "
+        "grid are outside the claim (the renderer is a per-line run-length loop, so behaviour is uniform in the line count).",
+        design="3 C02",
+        technique=TECH_S + "; per-cell colour comparison on the terminal model",
+    ),
+    C03=dict(
+        category="other",
+        text="The real kitty/iterm2 renderers, Transmission and ControlData run on opaque payload objects with symbolic lengths and offsets; "
+        "chunk slices must tile the base64 text, strips must tile tobytes(), control keys must carry the expected symbolic values, size= "
+        "must equal the encoder output length, the read-from-file gate is an iff. One query covers 0, 1, exactly-k and k+epsilon chunks. "
+        "Counterexamples are replayed on the unmodified code by decoding the real base64 payloads.",
+        note="Trusted: inverse axioms for zlib/base64/PNG/JPEG, z3, engine. Payloads longer than max_chunks x 4096 base64 characters are "
+        "outside the claim (stated bound; the chunk loop is explored completely below it).",
+        design="3 C03",
+        technique=TECH_S + "; provenance-tracking opaque payloads with symbolic offsets",
+    ),
+)
+
 PENDING = {}
 
 
